@@ -171,6 +171,22 @@ pub fn run_history_with(ch: &mut Chooser, scn: &Scn, cfg: &HistCfg, setup: &mut 
     for (mid, vars) in &scn.starts {
         let _ = sess.start(mid, &vars_of(vars));
     }
+    for (what, arg) in &scn.prelude {
+        sess.drain();
+        match what.as_str() {
+            "complete" => {
+                if let Some(m) = sess.open_irqs(None).into_iter().find(|m| m.key == *arg) {
+                    let _ = sess.act("complete", &m.pid, &m.tid, &acts::Vars::new());
+                }
+            }
+            "tick" => {
+                sess.w.advance_ms(arg.parse().unwrap_or(0));
+                sess.tick();
+            }
+            _ => {}
+        }
+        sess.drain();
+    }
     let pids = scn.pids();
     let mut points: Vec<QPoint> = vec![];
     let mut ops_done: Vec<OpRec> = vec![];
